@@ -32,6 +32,9 @@ LIB_SIGNATURES = {
     "numpy.allclose": (2, ["rtol", "atol", "equal_nan"]),
     "numpy.isclose": (2, ["rtol", "atol", "equal_nan"]),
     "numpy.linalg.matrix_rank": (1, ["tol", "hermitian"]),
+    "numpy.round": (1, ["decimals"]),
+    "numpy.around": (1, ["decimals"]),
+    "numpy.clip": (1, ["a_min", "a_max"]),
 }
 T_FUNCS = {"numpy.transpose"}
 MATMUL_FUNCS = {"numpy.matmul", "numpy.dot"}
